@@ -12,7 +12,7 @@ use serde_json::{json, Map, Value};
 const STREAM: u64 = 13;
 
 pub fn run(ctx: &Ctx) -> Report {
-    let n = ctx.cases(400, 12_000);
+    let n = ctx.cases(2_000, 200_000);
     let local = run_cases(ctx, n, |case, l| one_case(ctx, case, l));
     let mut rep = Report::new(
         "exploration",
